@@ -10,7 +10,7 @@
 #            the tokens of a statement; never an empty gap between two word tokens), with <= 0, 1, 2 non-default gaps;
 #   illformed the same skeletons with a newline-bearing trivia in the middle of a statement OUTSIDE brackets: kept only
 #            if the reference parser rejects the text while the real parser accepts it; judged with the real parser as its
-#            own witness and reported under C16:illformed:* keys only;
+#            own witness and reported under C16:illformed:* keys only (the family shrinks as the parser gets stricter);
 #   strings  every string body <= 3 (thorough 4) over the C01-X4 alphabet as '..', '''..''', f'..', f'''..''';
 #   longargs argument lists (call, method, array, dict, nested, files(), parenthesised and/or chains) whose one-line
 #            length is max_line_length-1, =, +1 for max_line_length in {20, 40, 80}, with/without trailing comma;
@@ -706,6 +706,7 @@ CTX = [
     ('filesarr', 2, lambda x, y: CALL('files', [ARR([x, y])])),
     ('filesarrtc', 2, lambda x, y: CALL('files', [ARR([x, y], trailing=True)])),
     ('files2', 2, lambda x, y: CALL('files', [x, y])),
+    ('filesnested', 2, lambda x, y: CALL('files', [ARR([ARR([x, y])])])),
 ]
 DEFAULT_FILL = [A, B, ONE]
 FILES_FILL = [STR("'y.c'"), STR("'x.c'"), STR("'z.c'")]
@@ -1329,6 +1330,12 @@ def main():
     fixed_points = 0
     changed = 0
     exhaustive = True
+    unmet = []
+
+    def need(cond, msg):
+        """Anti-vacuity condition, evaluated at the end: a run that has found violations keeps its verdict (exit 1)."""
+        if not cond:
+            unmet.append(msg)
 
     d1 = depth1()
     d2 = depth2()
@@ -1409,7 +1416,7 @@ def main():
         s = run_items(w_ill, items)
         report(ck, 'illformed', s)
         D['illformed'] = s
-        ck.require(s['ok'] + s['nviol'] > 0, 'the ill-formed-but-accepted family is empty')
+        ck.part('illformed', members_accepted_by_the_real_parser=s['ok'] + s['nviol'])   # may reach 0 once the parser is strict
 
     # ---- strings ---------------------------------------------------------------------------------------------
     def fam_sources(name, srcs, cfgs, chunk=200):
@@ -1424,7 +1431,7 @@ def main():
     fam_sources('strings', gen_strings(ck.q(3, 4)), [{}, {'simplify_string_literals': False}] if T else [{}])
     if 'strings' in D:
         kinds = {k for c in D['strings']['classes'] if len(c) == 4 for k in c[3]}
-        ck.require({'ml', 'f'} <= kinds, 'no string literal was simplified in the strings family (%r)' % kinds)
+        need({'ml', 'f'} <= kinds, 'no string literal was simplified in the strings family (%r)' % kinds)
 
     # ---- (2) long argument lists -----------------------------------------------------------------------------
     if ck.want('longargs'):
@@ -1446,8 +1453,8 @@ def main():
         report(ck, 'longargs', total)
         ck.part('longargs', programs=nsrc)
         D['longargs'] = total
-        ck.require(any(c[0] == 'lines+' for c in total['classes']), 'no long argument list was split')
-        ck.require(('fixed-point',) in total['classes'] or any(c[0] == 'lines=' for c in total['classes']),
+        need(any(c[0] == 'lines+' for c in total['classes']), 'no long argument list was split')
+        need(('fixed-point',) in total['classes'] or any(c[0] == 'lines=' for c in total['classes']),
                    'no argument list stayed on one line')
 
     # ---- (3) configurations ----------------------------------------------------------------------------------
@@ -1470,7 +1477,7 @@ def main():
                     pass
             effect[o] = n
         ck.part('configs', configurations=len(cfgs), programs=len(QUICK_PROGRAMS), programs_affected_by_option=effect)
-        ck.require(all(v > 0 for v in effect.values()), 'an option of the product never changes any output: %r' % effect)
+        need(all(v > 0 for v in effect.values()), 'an option of the product never changes any output: %r' % effect)
         D['configs'] = s
     if T and ck.want('configs-pairwise'):
         rows, uncovered = pairwise_configs()
@@ -1506,7 +1513,7 @@ def main():
                 skipped=dict(sorted(skipped.items())), cases=tot['n'], ok=tot['ok'], changed=tot['changed'],
                 violation_counts={k: v[0] for k, v in sorted(tot['viol'].items())})
         D['corpus'] = tot
-        ck.require(nref > 500, 'corpus: fewer than 500 files judged with the reference parser (%d)' % nref)
+        need(nref > 500, 'corpus: fewer than 500 files judged with the reference parser (%d)' % nref)
 
     # ---- CLI -------------------------------------------------------------------------------------------------
     if ck.want('cli'):
@@ -1548,7 +1555,7 @@ def main():
                     ck.violation(key, '%s | input %r | config %s' % (what, src, cfg_key(cfg)),
                                  {'src': src, 'cfg': cfg, 'file_nl': file_nl, 'family': 'cli'})
         ck.part('cli', cases=n, real_cli_runs=n * 5, skipped_impl_rejects=skipped, violation_counts=dict(sorted(vc.items())), **seen)
-        ck.require(min(seen.values()) > 0, 'CLI part did not see every outcome: %r' % seen)
+        need(min(seen.values()) > 0, 'CLI part did not see every outcome: %r' % seen)
         evaluations += n * 5
         classes.add(('cli', 'ok'))
         for k in vc:
@@ -1557,7 +1564,7 @@ def main():
     # ---- totals ----------------------------------------------------------------------------------------------
     feats = {f for name, s in D.items() if name.startswith('trivia:') for c in s['classes'] if len(c) == 4 for f in c[2]}
     if not ck.args.only:
-        ck.require({'cont', 'cmt', 'ml', 'files', 'if', 'for'} <= feats, 'trivia families lack a feature: %r' % feats)
+        need({'cont', 'cmt', 'ml', 'files', 'if', 'for'} <= feats, 'trivia families lack a feature: %r' % feats)
     for name, s in D.items():
         evaluations += s['n']
         classes |= {c for c in s['classes'] if c != ('fixed-point',)}
@@ -1569,11 +1576,15 @@ def main():
         for k, v in s['skip'].items():
             skips[k] = skips.get(k, 0) + v
     if not ck.args.only:
-        ck.require(changed > 1000 and fixed_points > 100, 'formatter never changed / never kept an input (%d/%d)' % (changed, fixed_points))
+        need(changed > 1000 and fixed_points > 100, 'formatter never changed / never kept an input (%d/%d)' % (changed, fixed_points))
         for name, tr in D.items():
             if name.startswith('trivia:'):
-                ck.require(tr['skip'].get('ref_rejects', 0) == 0,
+                need(tr['skip'].get('ref_rejects', 0) == 0,
                            'the legal-trivia generator produced text the reference parser rejects (%s: %r)' % (name, tr['skip']))
+    if unmet:
+        if ck.n_viol == 0:
+            ck.require(False, '; '.join(unmet))
+        print('note: anti-vacuity conditions not met (violations were found, verdict stands): ' + '; '.join(unmet)[:600], flush=True)
     ck.sample({'trivia variant': next(itertools.islice(variants(skels[0][1], 2, False), 40, None)),
                'formatted': real_format(next(itertools.islice(variants(skels[0][1], 2, False), 40, None)), {})})
     ck.sample({'longargs': gen_longargs([20])[5], 'formatted@20': real_format(gen_longargs([20])[5], {'max_line_length': 20})})
